@@ -143,6 +143,11 @@ def check_case(f, rec):
             with warnings.catch_warnings():
                 warnings.simplefilter("ignore")
                 got = getattr(p, q)()
+                again = getattr(p, q)()
+            if not _typed_equal(got, again) and q != "global_photos_flag":
+                raise Mismatch(f"C07:{q}:unstable", "the same query gives two different answers on one parser", got, again)
+        except Mismatch:
+            raise
         except Exception as e:  # noqa: BLE001
             if q == "dict_lineshape_settings" and w == "raises":
                 continue
